@@ -14,6 +14,7 @@ from __future__ import annotations
 import time
 
 import core
+import extract
 import extract_c02
 
 
@@ -21,6 +22,16 @@ def run(ctx: core.Run):
     t0 = time.time()
     summary = ctx.regenerate(extract_c02.gen_formats)
     ctx.extra["c02_payload_tables"] = dict(summary) if isinstance(summary, dict) else str(summary)
+    # the tables the payload models are instantiated with (`_TERMS`: `terms_have_four_bytes`; `Unit` / `Enum`; registries,
+    # enum members, validator options, every utils call of every class): Props/C02Payload.lean imports the C01 payload
+    # theorems, whose tie theorems are re-checked by this build against the tables regenerated here
+    ctx.regenerate(extract.gen_terms)
+    import desc_common
+    import payload_common
+    import payload3_common
+    desc_common.regenerate(ctx)
+    payload_common.regenerate(ctx)
+    payload3_common.regenerate(ctx)
     ctx.prove(["PsdVerif.Props.C02Payload"])
     t1 = time.time()
     try:
